@@ -471,7 +471,7 @@ func sortScenario(r *mc.Registry, maxLen int) {
 
 func main() {
 	mc.Main("C10", func(r *mc.Registry) {
-		r.Rule = "history: execution = (Ord instance expression, sequence of histDepth steps) for EVERY sequence over the alphabet {Compare of each ordered pair of three operands, and for operands with a mutable referent a write of new contents in place (operands 0 and 2; contents y and a value z not between x and y, so one write can flip a pair)} on ONE long-lived constructed instance; each call must equal what a freshly constructed instance answers for the current values; all library instances are constructed anew inside every execution. grammar/arity: execution = (Ord instance expression, a, b, c) over the whole value domain of the instance's type (all triples; the arity blocks take c from 3 values and a, b from all values: base, alternative representation, all-different, and differs-at-position-k-only for every k <= 12 in the quick tier and every k in the thorough tier, where pairs sharing a prefix longer than 14 get a reduced check: Less both ways and Compare against the lexicographic demand); each execution calls Less, Eqv, Compare, LessEq, Min, Max of the library's instance and checks trichotomy, transitivity, consistency and the constructor's structural demand; non-trivial = three different domain elements; distinct outcome = (instance, order pattern of the triple). sort: execution = (container, Ord, Sort|Min|Max, input sequence) for ALL sequences up to the length bound over 3 keys x 2 payloads; Sort must return a permutation ordered by the reference comparison, Min/Max any least/greatest element or None for empty; non-trivial = the input has an inversion"
+		r.Rule = "sort-nilable: execution = (nilable element type with its Ord | Reversed, container, Sort|Min|Max, input sequence) for ALL sequences up to the length bound over 4 values one of which is nil/None (so nil occurs in every position and any number of times); judged by a second instance of the same Ord: Sort = permutation without descent, Min/Max = Some(element that nothing is below/above), a nil element comes back as Some(nil), None only for the empty input. history: execution = (Ord instance expression, sequence of histDepth steps) for EVERY sequence over the alphabet {Compare of each ordered pair of three operands, and for operands with a mutable referent a write of new contents in place (operands 0 and 2; contents y and a value z not between x and y, so one write can flip a pair)} on ONE long-lived constructed instance; each call must equal what a freshly constructed instance answers for the current values; all library instances are constructed anew inside every execution. grammar/arity: execution = (Ord instance expression, a, b, c) over the whole value domain of the instance's type (all triples; the arity blocks take c from 3 values and a, b from all values: base, alternative representation, all-different, and differs-at-position-k-only for every k <= 12 in the quick tier and every k in the thorough tier, where pairs sharing a prefix longer than 14 get a reduced check: Less both ways and Compare against the lexicographic demand); each execution calls Less, Eqv, Compare, LessEq, Min, Max of the library's instance and checks trichotomy, transitivity, consistency and the constructor's structural demand; non-trivial = three different domain elements; distinct outcome = (instance, order pattern of the triple). sort: execution = (container, Ord, Sort|Min|Max, input sequence) for ALL sequences up to the length bound over 3 keys x 2 payloads; Sort must return a permutation ordered by the reference comparison, Min/Max any least/greatest element or None for empty; non-trivial = the input has an inversion"
 		r.Assumptions = []string{
 			"NaN is excluded from the float domains",
 			"which of None/Some and nil/non-nil sorts first is not fixed by the property: only that they differ, and the order laws, are demanded",
@@ -500,6 +500,11 @@ func main() {
 			maxLen = 6
 		}
 		sortScenario(r, maxLen)
+		nilLen := 4
+		if r.Thorough() {
+			nilLen = 6
+		}
+		nilCasesN := nilableScenario(r, nilLen)
 		if r.Thorough() {
 			histDepth = 4
 		}
@@ -546,6 +551,9 @@ func main() {
 			"sort_alphabet":                            "keys {0,1,2} x payloads {a,b}",
 			"sort_containers":                          []string{"seq", "iterator", "list (list.FromSeq)", "list (lazy, list.Collect)"},
 			"sort_ords":                                5,
+			"sort_nilable_cases":                       nilCasesN,
+			"sort_nilable_max_length":                  nilLen,
+			"sort_nilable_element_types":               "*int (nil, &1, &2, a second &1), []int and fp.Seq[int] (nil, empty / tight values), fp.Option[int] (None), **int (nil, pointer to nil); each with its Ord and the Reversed one",
 		}
 		r.Extra["uncovered"] = []string{
 			"NaN (excluded)",
